@@ -181,6 +181,8 @@ def build(case):
 def _score_dtype(case, scores):
     """Integer-valued non-negative scores may be handed over in an integer dtype (a hard classifier's uint8 / int
     predictions); None otherwise."""
+    if case.get("mode") == "adjacent32":
+        return "float32"
     dt = case.get("score_dtype")
     if dt and all(float(v).is_integer() and 0 <= v <= 100 for v in scores):
         return dt
@@ -251,7 +253,7 @@ def structure_tags(case, to):
         tie = tie or bool(pos & neg)
     if tie:
         tags.append("tie_pos_neg")
-    if case.get("mode") in ("adjacent", "subnormal"):
+    if case.get("mode") in ("adjacent", "subnormal", "adjacent32"):
         tags.append("adjacent_float_scores")
     if case.get("sf_container") in ("series", "frame") and case.get("sf_name") in ("score", "label", "sensitive_feature"):
         tags.append("feature_named_like_internal_column")
@@ -296,6 +298,13 @@ def has_vertical(points):
     return False
 
 
+def _ulps32(base, k):
+    v = np.float32(base)
+    for _ in range(k):
+        v = np.nextafter(v, np.float32(np.inf))
+    return float(v)
+
+
 def _ulps(base, k):
     v = float(base)
     for _ in range(k):
@@ -320,6 +329,8 @@ _SCORES = {
     # of them, so a cut between them exists only as '> lower' / '< upper'; also subnormal levels k * 5e-324
     "adjacent": st.tuples(st.sampled_from([0.3, 1.0, 0.5, 100.0, 0.1]), st.integers(0, 3)).map(lambda t: _ulps(t[0], t[1])),
     "subnormal": st.integers(0, 4).map(lambda k: k * 5e-324),
+    # neighbouring float32 numbers, handed to the optimizer as a float32 score column (a torch / lightgbm style scorer)
+    "adjacent32": st.tuples(st.sampled_from([0.3, 1.0, 0.5, 100.0, 0.1, 0.7]), st.integers(0, 3)).map(lambda t: _ulps32(t[0], t[1])),
     "near_large": st.tuples(st.sampled_from([1000.0, 1000.5]), st.integers(0, 3)).map(lambda t: t[0] + t[1] * 1e-6),
 }
 
